@@ -32,3 +32,26 @@ Print Assumptions hold_accounting_invariant.
 Theorem accept_only_when_ready : forall c tb r, Inv r -> fst (gate c tb r) = None -> ready c r = true.
 Proof. exact gate_sound. Qed.
 Print Assumptions accept_only_when_ready.
+
+(* "A client refused by any service it was submitted to is never accepted."
+   (1) a NO reply from an awaited service to the live instance prints exactly the reject line and retires the request;
+   (2) on the model's own trace, for every history: after a reject line for id, any later line about id (an accept in particular)
+       is preceded by a new complete announcement of id - it belongs to another connection instance. *)
+Require Refused.
+Theorem refusal_rejects_and_retires : forall c s0 e1 id argv svcn tg tx r slot t,
+  reqs s0 = [] -> with_xq c = true -> cmdchar argv = x58 ->
+  arg 1 argv = Some svcn -> arg 2 argv = Some tg -> arg 3 argv = Some tx ->
+  Stray.reply_target (Refused.run c s0 e1) svcn tg = Some (r, slot, t) -> prefix (S_ "NO ") tx = true ->
+  snd (step c (Refused.run c s0 e1) id argv) = [oc x6b r (S_ " :" ++ skipn 3 tx)] /\
+  lookup (cid r) (reqs (Refused.run c s0 (e1 ++ [(id, argv)]))) = None.
+Proof. exact Refused.refusal_reply_retires. Qed.
+Print Assumptions refusal_rejects_and_retires.
+
+Theorem refused_client_is_never_accepted : forall c s0 evs ni nj idi argvi outsi idj argvj outsj id a p rest k' a' p' rest',
+  reqs s0 = [] ->
+  nth_error (Mon01.trace c s0 evs) ni = Some (idi, argvi, outsi) -> In (OC x6b id a p rest) outsi ->
+  nth_error (Mon01.trace c s0 evs) nj = Some (idj, argvj, outsj) -> (ni < nj)%nat ->
+  In (OC k' id a' p' rest') outsj -> k' = x44 \/ k' = x52 ->
+  exists nk argvk outsk, (ni < nk < nj)%nat /\ nth_error (Mon01.trace c s0 evs) nk = Some (id, argvk, outsk) /\ Mon01.announces argvk = true.
+Proof. exact Refused.refused_client_is_never_accepted. Qed.
+Print Assumptions refused_client_is_never_accepted.
